@@ -569,6 +569,24 @@ def condRaises (fr : Frame) (l : Locals) : Cond → Option String
     | none => if evalCond fr l a = some false then condRaises fr l b else none
   | _ => none
 
+mutual
+/-- what the statement makes Python format of the user's objects WITHOUT the never-raising display wrapper, nested blocks included -/
+def stmtRawFormats : Stmt → List Fmt
+  | .print u => u
+  | .raise _ u => u
+  | .ite _ t e => stmtsRawFormats t ++ stmtsRawFormats e
+  | .tryCatch b _ h => stmtsRawFormats b ++ stmtsRawFormats h
+  | _ => []
+def stmtsRawFormats : List Stmt → List Fmt
+  | [] => []
+  | s :: rest => stmtRawFormats s ++ stmtsRawFormats rest
+end
+
+/-- everything the decorator (its wrappers and its decoration-time statements) formats of the user's objects without the display wrapper -/
+def decoRawFormats (d : Deco) : List Fmt :=
+  (d.wrappers.map (fun w => match w.body with | some ss => stmtsRawFormats ss | none => [])).flatten ++
+    (match d.decoTime with | some ss => stmtsRawFormats ss | none => [])
+
 /-- the keyword arguments of a call site -/
 def mkKw (fr : Frame) (l : Locals) : KwSrc → List (Nat × Nat)
   | .kwargs => fr.args.kw
@@ -670,7 +688,7 @@ def exec (fr : Frame) (s : Stmt) (l : Locals) (w : World) : Step :=
     match fr.p.guard.rejects fr.args with
     | some cls =>
       -- the refusal message of `assert_uses_kwargs` formats `args_without_self`
-      if cls == PedVerif.Gen.CallTables.assertUsesKwargsRaises then
+      if cls == PedVerif.Gen.CallTables.assertUsesKwargsRaises && refusalMessageFormatsRawArguments then
         match idsReprRaise fr.p.traits (fr.p.guard.messageArgs fr.args) with
         | some c => (.done (.exc (.lib c)), [], w)
         | none => (.done (.exc (.lib cls)), [], w)
